@@ -11,6 +11,7 @@ import (
 	"runtime"
 	"sync"
 	"sync/atomic"
+	"time"
 
 	"perun.network/go-perun/wallet"
 	"perun.network/go-perun/wire"
@@ -49,11 +50,14 @@ type Bus struct {
 	drop      func(*wire.Envelope) bool
 	wg        sync.WaitGroup
 	delivered int64
+	lagMu     sync.Mutex
+	lagRng    *rand.Rand
 }
 
 // New creates a bus. noise is the maximal number of scheduler yields before each delivery.
 func New(seed int64, noise int) *Bus {
-	return &Bus{eps: map[wire.AddrKey]*endpoint{}, links: map[string]*link{}, rewriters: map[wire.AddrKey]Rewriter{}, seed: seed, noise: noise, closed: make(chan struct{})}
+	return &Bus{eps: map[wire.AddrKey]*endpoint{}, links: map[string]*link{}, rewriters: map[wire.AddrKey]Rewriter{}, seed: seed, noise: noise, closed: make(chan struct{}),
+		lagRng: rand.New(rand.NewSource(seed ^ 0x1a6))}
 }
 
 // SetSerializer makes every envelope take a round trip through ser before delivery.
@@ -139,7 +143,28 @@ func (b *Bus) Publish(ctx context.Context, e *wire.Envelope) error {
 	for _, x := range out {
 		b.enqueue(x)
 	}
+	b.sendLag()
 	return nil
+}
+
+// sendLag models a network write that returns late: the message is already on its way (and may
+// be answered) while the sender has not yet got control back. Only schedule noise, never a verdict.
+func (b *Bus) sendLag() {
+	if b.noise == 0 {
+		return
+	}
+	b.lagMu.Lock()
+	y, sl := b.lagRng.Intn(b.noise+1), 0
+	if b.lagRng.Intn(4) == 0 {
+		sl = 50 + b.lagRng.Intn(250)
+	}
+	b.lagMu.Unlock()
+	for ; y > 0; y-- {
+		runtime.Gosched()
+	}
+	if sl > 0 {
+		time.Sleep(time.Duration(sl) * time.Microsecond)
+	}
 }
 
 // Inject queues a crafted envelope as if its sender had published it (no rewriting).
